@@ -29,4 +29,7 @@ def run(P, R, L):
         ok = bool(app) and bool(edges) and all(b.must_pass(a.bb, through_edges=edges) for a in app)
         R.check("OWN-7", fn + "|append-mode-only-under-reuse", ok, K.where(b),
                 "LogWriter::new(.., true) is reached only over the true edge of options.reuse_log_files()", "append sites %d" % len(app))
+    R.clause("GRD-11", "a log re-opened for appending continues at block offset len % BLOCK_SIZE for every non-empty file; writer and reader "
+             "use the same trailer test")
+    K.grd11_reopen_offset(P, R, L)
     R.not_decided += ["offset arithmetic of LogWriter::new(is_appending = true)", "records appended inside a torn block"]
